@@ -8,7 +8,7 @@ func baseWeights() map[string]int {
 		"send": 14, "retire": 8, "cancel": 6,
 		"update_class_admin": 3, "update_class_issuers": 4, "update_class_metadata": 2,
 		"update_project_admin": 2, "update_project_metadata": 2, "update_batch_metadata": 3,
-		"bridge": 5, "bridge_receive": 6, "allowlist": 2, "class_creator": 3, "class_fee": 2, "bridge_chain": 3,
+		"bridge": 5, "bridge_receive": 6, "bridge_receive_bound": 4, "allowlist": 2, "class_creator": 3, "class_fee": 2, "bridge_chain": 3,
 		"burn_regen": 2, "unimplemented": 1, "bank_send": 8,
 		"basket_create": 4, "put": 14, "take": 12, "basket_fee": 2, "update_curator": 2, "update_date_criteria": 3,
 		"sell": 14, "update_sell": 10, "cancel_sell": 5, "buy": 16, "allowed_denom": 3, "fee_params": 3, "fee_pool_send": 3,
@@ -36,14 +36,21 @@ func ProfileFor(prop string) Profile {
 		p := tilt("market-heavy", map[string]int{"sell": 4, "update_sell": 4, "cancel_sell": 3, "buy": 5, "allowed_denom": 3, "fee_params": 3, "fee_pool_send": 2, "anchor": 0, "attest": 0, "define_resolver": 0, "register_resolver": 0})
 		p.BlockEvery = 4
 		return p
+	case "C04":
+		// permanence: every handler that rewrites a balance row, with more minting into open batches
+		return tilt("all-message+mint", map[string]int{"mint": 4, "create_batch": 2, "send": 2, "retire": 2, "take": 2})
+	case "C03":
+		// ownership: the all-message mix with more marketplace traffic (the fill exception) and more
+		// multi-entry purchases
+		return tilt("all-message+market", map[string]int{"sell": 2, "buy": 4, "update_sell": 2, "cancel_sell": 2, "fee_pool_send": 2})
 	case "C08":
 		p := tilt("role-churn", map[string]int{"update_class_admin": 6, "update_class_issuers": 6, "update_class_metadata": 4, "update_project_admin": 6, "update_project_metadata": 4,
-			"update_batch_metadata": 4, "seal": 3, "mint": 3, "update_curator": 8, "allowlist": 4, "class_creator": 4, "class_fee": 3, "bridge_chain": 3, "basket_fee": 4, "update_date_criteria": 3,
+			"update_batch_metadata": 4, "seal": 3, "mint": 3, "bridge_receive_bound": 3, "update_curator": 8, "allowlist": 4, "class_creator": 4, "class_fee": 3, "bridge_chain": 3, "basket_fee": 4, "update_date_criteria": 3,
 			"allowed_denom": 3, "fee_params": 3, "fee_pool_send": 3, "add_credit_type": 3, "update_sell": 2, "cancel_sell": 3, "register_resolver": 5, "define_resolver": 3, "create_class": 2, "create_project": 2})
 		p.Hostile = 0.45
 		return p
 	case "C13":
-		p := tilt("bridge-heavy", map[string]int{"bridge": 8, "bridge_receive": 8, "mint": 4, "create_batch": 3, "bridge_chain": 5, "anchor": 0, "attest": 0, "define_resolver": 0, "register_resolver": 0})
+		p := tilt("bridge-heavy", map[string]int{"bridge": 8, "bridge_receive": 8, "bridge_receive_bound": 4, "mint": 4, "create_batch": 3, "bridge_chain": 5, "anchor": 0, "attest": 0, "define_resolver": 0, "register_resolver": 0})
 		return p
 	case "C14", "C17":
 		p := tilt("creation-heavy", map[string]int{"create_class": 6, "create_project": 8, "create_batch": 5, "bridge_receive": 3, "add_credit_type": 5, "basket_create": 3})
